@@ -538,6 +538,12 @@ get_next_token0() {
       if (decl != nullptr) {
         if (decl->as_concept() != nullptr) {
           nested_skip_template_instantiation(decl->get_template_scope());
+        } else if (decl->get_template_scope() == nullptr) {
+          // The template's parameter list is not known here (a member
+          // template of an instantiated class template); its arguments
+          // cannot be parsed.
+          error(string("cannot instantiate template '") + ident->get_fully_scoped_name() + "' here", loc);
+          nested_skip_template_instantiation(nullptr);
         } else {
           ident->_names.back().set_templ
             (nested_parse_template_instantiation(decl->get_template_scope()));
@@ -600,6 +606,10 @@ get_next_token0() {
         if (decl != nullptr) {
           if (decl->as_concept() != nullptr) {
             nested_skip_template_instantiation(decl->get_template_scope());
+          } else if (decl->get_template_scope() == nullptr) {
+            // As above: the parameter list of this template is not known.
+            error(string("cannot instantiate template '") + ident->get_fully_scoped_name() + "' here", loc);
+            nested_skip_template_instantiation(nullptr);
           } else {
             ident->_names.back().set_templ
               (nested_parse_template_instantiation(decl->get_template_scope()));
@@ -3355,8 +3365,6 @@ nested_parse_template_instantiation(CPPTemplateScope *scope) {
  */
 void CPPPreprocessor::
 nested_skip_template_instantiation(CPPTemplateScope *scope) {
-  assert(scope != nullptr);
-
   State old_state = _state;
   int old_nesting = _paren_nesting;
   bool old_parsing_params = _parsing_template_params;
